@@ -2,11 +2,13 @@ use crate::core::{Ctx, Report};
 use serde_json::Value;
 
 pub mod c09;
+pub mod c10;
 pub mod e2e_paths;
 
 pub fn run(ctx: &Ctx) -> Option<Report> {
     match ctx.id.as_str() {
         "C09" => Some(c09::run(ctx)),
+        "C10" => Some(c10::run(ctx)),
         _ => None,
     }
 }
@@ -16,6 +18,7 @@ pub fn replay(id: &str, doc: &Value) -> i32 {
     match id {
         _ if !case["e2e"].is_null() => crate::e2e::replay(case),
         "C09" => c09::replay(case),
+        "C10" => c10::replay(case),
         _ => {
             eprintln!("no replay for {}", id);
             2
@@ -23,6 +26,12 @@ pub fn replay(id: &str, doc: &Value) -> i32 {
     }
 }
 
-pub fn internal(_args: &[String]) -> i32 {
-    2
+pub fn internal(args: &[String]) -> i32 {
+    match args[0].as_str() {
+        "--c10-digest" => {
+            println!("{}", c10::corpus_digest());
+            0
+        }
+        _ => 2,
+    }
 }
